@@ -41,6 +41,7 @@ class UnitBuild:
         self.emitted: List[Emitted] = []
         self.lines: List[str] = []
         self.assumed_sigs: List[str] = []
+        self.carved: List[dict] = []
 
     # ------------------------------------------------------------------ helpers
     def src(self, rel: str) -> Source:
@@ -137,6 +138,8 @@ class UnitBuild:
             body = self.inject(body, spec)
             text = f"{spec.attrs}{vis}{sig}\n{contract}{body}\n"
         out_impl = spec.as_impl or impl
+        if mode == "verify" and cfg.get("split"):
+            return self.emit_split(rel, key, item, sig, spec, body, counts, cfg, out_impl)
         hdr = f"// @@FN {mode} {key}  <- {rel}:{item.line}\n"
         if out_impl:
             text = f"{out_impl} {{\n{text}}}\n"
@@ -145,6 +148,66 @@ class UnitBuild:
                                     sha256=_sha(item.text), impl=out_impl))
         if mode == "verify" and not cfg.get("no_canary"):
             self.emit_canary(sig, spec, key, out_impl)
+
+    def emit_split(self, rel, key, item, sig, spec, body, counts, cfg, out_impl):
+        """Case split on the enum variant matched by one big `match` of the function (DESIGN §2, engine VA):
+        one obligation per variant V with the extra precondition `<on> is V`, in which every arm for another variant is
+        replaced by `unreached()` (so it is PROVED dead, not assumed), plus one obligation `#other` for all remaining
+        variants.  The preconditions are V1, .., Vn and `none of V1..Vn`, which is exhaustive by construction."""
+        from .extract import find_match, match_arms
+        from . import rewrite as RW2
+        sp = cfg["split"]
+        pos = find_match(body, sp.get("nth", 0), sp.get("scrutinee"))
+        arms = match_arms(body, pos)
+        groups: Dict[str, List[int]] = {}
+        for k, a in enumerate(arms):
+            comps = RW2._pat_components(a.pat)
+            c = RW2._ctor(comps[sp.get("slot", 0)])
+            if c is not None:
+                groups.setdefault(c.split("::")[-1], []).append(k)
+        on = sp["on"]
+        variants = list(groups)
+        def variant_body(keep: Optional[str]):
+            edits = []
+            for v, idxs in groups.items():
+                if v == keep:
+                    continue
+                for k in idxs:
+                    a = arms[k]
+                    g = f" if {a.guard}" if a.guard else ""
+                    edits.append((a.start, a.end, f"{a.pat}{g} => unreached(),"))
+            return RW2._apply(body, edits)
+        first = True
+        for v in variants + [None]:
+            b = variant_body(v)
+            name = item.name + "__" + (v or "other")
+            extra = f"({on}) is {v}" if v else " && ".join(f"!(({on}) is {x})" for x in variants)
+            sp2 = FnSpec(spec.name, requires=spec.requires.rstrip("\n") + "\n" + extra + ",\n", ensures=spec.ensures, decreases=spec.decreases)
+            contract = self.clauses(sp2)
+            sig2 = re.sub(r"\bfn\s+" + re.escape(item.name) + r"\b", "fn " + name, sig, count=1)
+            text = f"{spec.attrs}pub {sig2}\n{contract}{b}\n"
+            if out_impl:
+                text = f"{out_impl} {{\n{text}}}\n"
+            s, e = self.out(f"// @@FN verify {key}#{v or 'other'}  <- {rel}:{item.line} (variant split)\n" + text)
+            self.emitted.append(Emitted(name, "verify", rel, item.line, s, e, contract=contract,
+                                        rewrites=dict(counts, VA=1) if first else {"VA": 1}, sha256=_sha(item.text), impl=out_impl))
+            first = False
+        # the unsplit signature is what callers see
+        text = f"#[verifier::external_body]\n{spec.attrs}pub {sig}\n{self.clauses(spec)}{{ unimplemented!() }}\n"
+        if out_impl:
+            text = f"{out_impl} {{\n{text}}}\n"
+        s, e = self.out(f"// @@FN split-summary {key}: contract proved by the {len(variants) + 1} variant obligations above\n" + text)
+        self.emitted.append(Emitted(key, "split-summary", rel, item.line, s, e, contract=self.clauses(spec), impl=out_impl))
+        if not cfg.get("no_canary"):
+            self.emit_canary(sig, spec, key, out_impl)
+
+    def emit_assumed(self, key: str):
+        """a function that has no source text of its own (R8 carve-out): signature and contract come from the spec file"""
+        spec = self.specs[key]
+        sig = self.name_return(spec.sig, spec.returns)
+        text = f"#[verifier::external_body]\npub {sig}\n{self.clauses(spec)}{{ unimplemented!() }}\n"
+        s, e = self.out(f"// @@FN carved {key}\n" + text)
+        self.emitted.append(Emitted(key, "stub", "(carved block)", 0, s, e, contract=self.clauses(spec)))
 
     def emit_canary(self, sig: str, spec: FnSpec, key: str, out_impl: Optional[str]) -> Optional[str]:
         """`proof fn` with the same parameters and the same `requires` whose body asserts false: it must FAIL.
@@ -197,6 +260,10 @@ class UnitBuild:
             if n:
                 counts[tag] = counts.get(tag, 0) + n
         body = RW.strip_attrs_and_doc(body)
+        for cv in cfg.get("carve", []):
+            body, sha = carve_block(body, cv["token"], cv["call"])
+            counts["R8"] = counts.get("R8", 0) + 1
+            self.carved.append({"stub": cv["stub"], "token": cv["token"], "sha256": sha})
         run("R7", RW.r7_smallvec)
         run("R5", RW.r5_debug_assert)
         run("R6", RW.r6_panics)
@@ -264,6 +331,24 @@ class UnitBuild:
             if e.gen_start <= line <= e.gen_end:
                 return e
         return None
+
+
+def carve_block(body: str, token: str, call: str):
+    """R8: replace the innermost `{ .. }` block that contains `token` by `{ call }`; returns (new body, sha256 of the carved text)"""
+    T = code_toks(lex(body))
+    idx = [i for i, t in enumerate(T) if t.kind == "ident" and t.text == token]
+    if len(idx) != 1:
+        raise AnchorError(f"carve anchor `{token}` occurs {len(idx)} times")
+    stack = []
+    for i, t in enumerate(T):
+        if t.kind == "punct" and t.text == "{":
+            stack.append(i)
+        elif t.kind == "punct" and t.text == "}":
+            o = stack.pop()
+            if o < idx[0] < i:
+                carved = body[T[o].start:T[i].end]
+                return body[:T[o].start] + "{ " + call + " }" + body[T[i].end:], _sha(re.sub(r"\s+", " ", carved))
+    raise AnchorError(f"no block around `{token}`")
 
 
 def _indent(t: str, n: int) -> str:
